@@ -31,8 +31,23 @@ fn hostile_local() -> impl Strategy<Value = String> {
     ]
 }
 
+/// Identifiers close to the 255-byte limit made of characters that need percent-encoding, so
+/// that the URI text is up to three times longer than the identifier.
+fn long_id(sigil: char) -> impl Strategy<Value = String> {
+    (proptest::string::string_regex(&format!("{HOSTILE}{{80,255}}")).unwrap(), idgen::server_name(), 0usize..4, any::<bool>()).prop_map(move |(local, server, slack, ascii)| {
+        let local: String = if ascii { local.chars().map(|c| if c.is_ascii() { c } else { '/' }).collect() } else { local };
+        let budget = 255usize.saturating_sub(2 + server.len() + slack);
+        let mut cut = local.len().min(budget);
+        while !local.is_char_boundary(cut) {
+            cut -= 1;
+        }
+        format!("{sigil}{}:{server}", &local[..cut])
+    })
+}
+
 fn user_ids() -> impl Strategy<Value = String> {
     prop_oneof![
+        1 => long_id('@'),
         2 => idgen::user_id(),
         3 => ("[!-9;-~]{1,10}", idgen::server_name()).prop_map(|(l, s)| format!("@{l}:{s}")),
         1 => ("[a-z]{0,3}%[0-9A-F]{2}[a-z]{0,3}", idgen::server_name()).prop_map(|(l, s)| format!("@{l}:{s}")),
@@ -41,16 +56,18 @@ fn user_ids() -> impl Strategy<Value = String> {
 }
 fn room_ids() -> impl Strategy<Value = String> {
     prop_oneof![
+        1 => long_id('!'),
         2 => idgen::room_id(),
         3 => (hostile_local(), idgen::server_name()).prop_map(|(l, s)| format!("!{l}:{s}")),
         1 => hostile_local().prop_map(|l| format!("!{l}")),
     ]
 }
 fn alias_ids() -> impl Strategy<Value = String> {
-    prop_oneof![2 => idgen::room_alias_id(), 3 => (hostile_local(), idgen::server_name()).prop_map(|(l, s)| format!("#{l}:{s}"))]
+    prop_oneof![1 => long_id('#'), 2 => idgen::room_alias_id(), 3 => (hostile_local(), idgen::server_name()).prop_map(|(l, s)| format!("#{l}:{s}"))]
 }
 fn event_ids() -> impl Strategy<Value = String> {
     prop_oneof![
+        1 => long_id('$'),
         3 => idgen::event_id(),
         2 => (hostile_local(), idgen::server_name()).prop_map(|(l, s)| format!("${l}:{s}")),
         2 => hostile_local().prop_map(|l| format!("${l}")),
@@ -155,6 +172,8 @@ pub fn value_oracle(c: &UriValue, cx: &mut CaseCtx) -> Result<(), String> {
     cx.class_if(c.id.contains('%') || (with_event && c.event.contains('%')), "percent_in_id");
     cx.class_if(reserved(&c.id) || (with_event && reserved(&c.event)), "reserved_char_in_id");
     cx.class_if(!c.via.is_empty(), "with_via");
+    cx.class_if(c.id.len() >= 200 || (with_event && c.event.len() >= 200), "id_of_200_to_255_bytes");
+    cx.class_if(c.id.len() == 255 || (with_event && c.event.len() == 255), "id_of_exactly_255_bytes");
     cx.nontrivial_if(reserved(&c.id) || (with_event && reserved(&c.event)) || !c.via.is_empty());
     match b {
         Built::To(u) => {
@@ -313,6 +332,8 @@ pub fn run(ck: &mut Check) {
     ck.floor("uri_values", "percent_in_id", 2000);
     ck.floor("uri_values", "reserved_char_in_id", 10000);
     ck.floor("uri_values", "with_via", 10000);
+    ck.floor("uri_values", "id_of_200_to_255_bytes", 3000);
+    ck.floor("uri_values", "id_of_exactly_255_bytes", 300);
     let n = ck.n(300_000, 8_000_000);
     ck.prop("uri_texts", n, text_case, text_oracle);
     ck.floor("uri_texts", "text_parsed", 10000);
